@@ -81,92 +81,108 @@ func runC12(w *World, c *Check) {
 	fk := FuncKey(fn)
 
 	// ---- rule 1: payload provenance -------------------------------------------
+	// The strategies may live in helpers extracted from sendToKDC (one per transport order): every
+	// function below sendToKDC that calls the transports is a subject of the payload and KRB-ERROR rules.
+	root := fa
+	subjects := []*FuncAn{fa}
+	for _, sub := range fa.withNewHelpers()[1:] {
+		if len(sub.Calls(sendRe)) > 0 {
+			subjects = append(subjects, NewFuncAn(w, sub.Fn))
+		}
+	}
 	nOK := 0
-	for _, x := range fa.Exits() {
-		rs := RetResults(x.Ret)
-		if len(rs) != 2 {
-			continue
+	for _, fa := range subjects {
+		fn := fa.Fn
+		fk := fk
+		if fa != root {
+			fk = fk + "→" + FuncKey(fn)
 		}
-		if k, ok := rs[1].(*ssa.Const); !ok || k.Value != nil {
-			continue // not a nil-error return
-		}
-		nOK++
-		where := w.Pos(InstrPos(x.Ret))
-		label := "success-return@" + fa.exitLabel(x)
-		v := rs[0]
-		// select the operand for this in-edge if v is a phi of the return block
-		srcs := []valSrc{}
-		if phi, ok := v.(*ssa.Phi); ok && x.In != nil && phi.Block() == x.Ret.Block() {
-			for i, p := range phi.Block().Preds {
-				if p == x.In.From {
-					srcs = valueSources(phi.Edges[i], x.In, map[ssa.Value]bool{})
-				}
+		for _, x := range fa.Exits() {
+			rs := RetResults(x.Ret)
+			if len(rs) != 2 {
+				continue
 			}
-		} else {
-			srcs = valueSources(v, x.In, map[ssa.Value]bool{})
-		}
-		good := len(srcs) > 0
-		detail := ""
-		for _, s := range srcs {
-			ex, ok := s.v.(*ssa.Extract)
-			var call *ssa.Call
-			if ok && ex.Index == 0 {
-				call, _ = ex.Tuple.(*ssa.Call)
+			if k, ok := rs[1].(*ssa.Const); !ok || k.Value != nil {
+				continue // not a nil-error return
 			}
-			if call == nil || !fullMatch(sendRe, fa.CalleeName(call)) {
-				good = false
-				detail = "a returned operand is " + fa.R.R(s.v) + ", not the result of a send (zero value or unrelated variable)"
-				break
-			}
-			// the error of that call must have been tested nil on every path selecting this operand
-			var errEx ssa.Value
-			for _, ref := range *call.Referrers() {
-				if e2, ok := ref.(*ssa.Extract); ok && e2.Index == 1 {
-					errEx = e2
-				}
-			}
-			var pass []Edge
-			if errEx != nil {
-				for _, cd := range fa.Conds {
-					if cd.Kind != "eq" {
-						continue
-					}
-					bo, ok := stripNot(cd.If.Cond).(*ssa.BinOp)
-					if !ok {
-						continue
-					}
-					if (bo.X == errEx && isNilConst(bo.Y)) || (bo.Y == errEx && isNilConst(bo.X)) {
-						pass = append(pass, Edge{cd.If.Block(), cd.HoldsSucc})
+			nOK++
+			where := w.Pos(InstrPos(x.Ret))
+			label := "success-return@" + fa.exitLabel(x)
+			v := rs[0]
+			// select the operand for this in-edge if v is a phi of the return block
+			srcs := []valSrc{}
+			if phi, ok := v.(*ssa.Phi); ok && x.In != nil && phi.Block() == x.Ret.Block() {
+				for i, p := range phi.Block().Preds {
+					if p == x.In.From {
+						srcs = valueSources(phi.Edges[i], x.In, map[ssa.Value]bool{})
 					}
 				}
-			}
-			if len(pass) == 0 {
-				good = false
-				detail = "the error of " + fa.RenderCall(call) + " at " + w.Pos(InstrPos(call)) + " is never tested"
-				break
-			}
-			target := s.via
-			if target == nil {
-				target = x.In
-			}
-			rm := map[Edge]bool{}
-			for _, e := range pass {
-				rm[e] = true
-			}
-			var path []*ssa.BasicBlock
-			if target == nil {
-				path = pathTo(fn.Blocks[0], rm, nil, map[*ssa.BasicBlock]bool{x.Ret.Block(): true})
 			} else {
-				path = pathTo(fn.Blocks[0], rm, map[Edge]bool{*target: true}, nil)
+				srcs = valueSources(v, x.In, map[ssa.Value]bool{})
 			}
-			if path != nil {
-				good = false
-				detail = fmt.Sprintf("the bytes of %s (called at %s) are returned with a nil error on a path on which that call's error was not nil: %s — the result of the send that succeeded is lost (bound to another variable)",
-					fa.CalleeName(call), w.Pos(InstrPos(call)), fa.DescribePath(path))
-				break
+			good := len(srcs) > 0
+			detail := ""
+			for _, s := range srcs {
+				ex, ok := s.v.(*ssa.Extract)
+				var call *ssa.Call
+				if ok && ex.Index == 0 {
+					call, _ = ex.Tuple.(*ssa.Call)
+				}
+				if call == nil || !fullMatch(sendRe, fa.CalleeName(call)) {
+					good = false
+					detail = "a returned operand is " + fa.R.R(s.v) + ", not the result of a send (zero value or unrelated variable)"
+					break
+				}
+				// the error of that call must have been tested nil on every path selecting this operand
+				var errEx ssa.Value
+				for _, ref := range *call.Referrers() {
+					if e2, ok := ref.(*ssa.Extract); ok && e2.Index == 1 {
+						errEx = e2
+					}
+				}
+				var pass []Edge
+				if errEx != nil {
+					for _, cd := range fa.Conds {
+						if cd.Kind != "eq" {
+							continue
+						}
+						bo, ok := stripNot(cd.If.Cond).(*ssa.BinOp)
+						if !ok {
+							continue
+						}
+						if (bo.X == errEx && isNilConst(bo.Y)) || (bo.Y == errEx && isNilConst(bo.X)) {
+							pass = append(pass, Edge{cd.If.Block(), cd.HoldsSucc})
+						}
+					}
+				}
+				if len(pass) == 0 {
+					good = false
+					detail = "the error of " + fa.RenderCall(call) + " at " + w.Pos(InstrPos(call)) + " is never tested"
+					break
+				}
+				target := s.via
+				if target == nil {
+					target = x.In
+				}
+				rm := map[Edge]bool{}
+				for _, e := range pass {
+					rm[e] = true
+				}
+				var path []*ssa.BasicBlock
+				if target == nil {
+					path = pathTo(fn.Blocks[0], rm, nil, map[*ssa.BasicBlock]bool{x.Ret.Block(): true})
+				} else {
+					path = pathTo(fn.Blocks[0], rm, map[Edge]bool{*target: true}, nil)
+				}
+				if path != nil {
+					good = false
+					detail = fmt.Sprintf("the bytes of %s (called at %s) are returned with a nil error on a path on which that call's error was not nil: %s — the result of the send that succeeded is lost (bound to another variable)",
+						fa.CalleeName(call), w.Pos(InstrPos(call)), fa.DescribePath(path))
+					break
+				}
 			}
+			c.Decide(good, "C12.payload", fk, label, where, "the bytes returned with a nil error come from the send whose error was nil on this path", detail)
 		}
-		c.Decide(good, "C12.payload", fk, label, where, "the bytes returned with a nil error come from the send whose error was nil on this path", detail)
 	}
 	if nOK == 0 {
 		c.Fail("C12.payload", fk, "success-returns", w.Pos(fn.Pos()), "sendToKDC has nil-error returns", "none found")
@@ -177,9 +193,42 @@ func runC12(w *World, c *Check) {
 	tcpOnly := fa.MatchGuard(EqPass("1", lim))
 	small := fa.MatchGuard(GuardPat{Kind: "gt", X: `len\(b\)`, Y: lim, PassWhen: false}) // edge on which len(b) <= limit
 	where := w.Pos(fn.Pos())
-	firstSend := func(e Edge) (string, *ssa.Call) {
-		// first send call reached from the edge (straight-line walk)
+	// a region: the code that handles one case of the selection — the blocks below an edge of
+	// sendToKDC, or the body of the strategy helper that edge hands over to
+	type region struct {
+		fa    *FuncAn
+		start *ssa.BasicBlock
+	}
+	resolve := func(e Edge) region {
 		b := e.To()
+		for steps := 0; steps < 6 && b != nil; steps++ {
+			for _, in := range b.Instrs {
+				call, ok := in.(*ssa.Call)
+				if !ok {
+					continue
+				}
+				if fullMatch(sendRe, fa.CalleeName(call)) {
+					return region{fa, e.To()}
+				}
+				if g := call.Call.StaticCallee(); g != nil {
+					for _, sfa := range subjects[1:] {
+						if sfa.Fn == g {
+							return region{sfa, g.Blocks[0]}
+						}
+					}
+				}
+			}
+			if len(b.Succs) != 1 {
+				break
+			}
+			b = b.Succs[0]
+		}
+		return region{fa, e.To()}
+	}
+	firstSend := func(r region) (string, *ssa.Call) {
+		// first send call reached from the start of the region (straight-line walk)
+		fa := r.fa
+		b := r.start
 		for steps := 0; steps < 6 && b != nil; steps++ {
 			for _, in := range b.Instrs {
 				if call, ok := in.(*ssa.Call); ok && fullMatch(sendRe, fa.CalleeName(call)) {
@@ -197,9 +246,9 @@ func runC12(w *World, c *Check) {
 		c.Fail("C12.order", fk, "selectors", where, "the function branches on udp_preference_limit == 1 and on len(request) <= udp_preference_limit", "branches not found; conditions: "+trunc(fa.condSummary(), 400))
 	} else {
 		// region helpers
-		reach := func(from Edge) map[*ssa.BasicBlock]bool {
+		reach := func(r region) map[*ssa.BasicBlock]bool {
 			seen := map[*ssa.BasicBlock]bool{}
-			st := []*ssa.BasicBlock{from.To()}
+			st := []*ssa.BasicBlock{r.start}
 			for len(st) > 0 {
 				b := st[len(st)-1]
 				st = st[:len(st)-1]
@@ -213,23 +262,33 @@ func runC12(w *World, c *Check) {
 		}
 		// (a) limit == 1: only TCP
 		onlyTCP := true
-		for b := range reach(tcpOnly[0]) {
+		r1 := resolve(tcpOnly[0])
+		for b := range reach(r1) {
 			for _, in := range b.Instrs {
-				if call, ok := in.(*ssa.Call); ok && strings.HasSuffix(fa.CalleeName(call), "sendKDCUDP") {
-					onlyTCP = false
+				if call, ok := in.(*ssa.Call); ok {
+					if strings.HasSuffix(r1.fa.CalleeName(call), "sendKDCUDP") {
+						onlyTCP = false
+					}
+					// a helper below the region that can reach the UDP transport
+					if g := call.Call.StaticCallee(); g != nil && newHelper(g) && len(NewFuncAn(w, g).CallsDeep(`client\.\(\*Client\)\.sendKDCUDP`)) > 0 {
+						onlyTCP = false
+					}
 				}
 			}
 		}
-		n1, _ := firstSend(tcpOnly[0])
+		n1, _ := firstSend(r1)
 		c.Decide(onlyTCP && strings.HasSuffix(n1, "sendKDCTCP"), "C12.order", fk, "limit-1-tcp-only", where, "udp_preference_limit = 1 ⇒ only TCP is used", "UDP reachable / first send is "+n1)
 		// (b) small: UDP first
-		nS, udpCall := firstSend(small[0])
+		rS := resolve(small[0])
+		nS, udpCall := firstSend(rS)
 		c.Decide(strings.HasSuffix(nS, "sendKDCUDP"), "C12.order", fk, "small-udp-first", where, "requests not larger than the limit try UDP first", "first send is "+nS)
 		// (c) large: TCP first
-		nL, tcpCall := firstSend(Edge{small[0].From, 1 - small[0].Succ})
+		rL := resolve(Edge{small[0].From, 1 - small[0].Succ})
+		nL, tcpCall := firstSend(rL)
 		c.Decide(strings.HasSuffix(nL, "sendKDCTCP"), "C12.order", fk, "large-tcp-first", where, "larger requests try TCP first", "first send is "+nL)
 		// fall-backs
-		fallback := func(name string, first *ssa.Call, other string, allowKRBStop string) {
+		fallback := func(name string, r region, first *ssa.Call, other string, allowKRBStop string) {
+			fa := r.fa
 			if first == nil {
 				c.Fail("C12.order", fk, name, where, "fall-back to the other transport", "first send not found")
 				return
@@ -289,34 +348,40 @@ func runC12(w *World, c *Check) {
 			}
 			c.Decide(bad == nil && len(stop) > 0, "C12.order", fk, name, w.Pos(InstrPos(first)), desc, "a failure path returns without trying "+other+": "+fa.DescribePath(bad))
 		}
-		fallback("small-fallback-tcp", udpCall, "sendKDCTCP", "not52")
-		fallback("large-fallback-udp", tcpCall, "sendKDCUDP", "any")
+		fallback("small-fallback-tcp", rS, udpCall, "sendKDCTCP", "not52")
+		fallback("large-fallback-udp", rL, tcpCall, "sendKDCUDP", "any")
 	}
 
 	// ---- rule 3: KRB-ERROR arms ---------------------------------------------------
 	arms := 0
-	for _, x := range fa.Exits() {
-		fs := fa.factsOn(x.In)
-		if len(fs) == 0 {
-			continue
+	for _, fa := range subjects {
+		fk := fk
+		if fa != root {
+			fk = fk + "→" + FuncKey(fa.Fn)
 		}
-		f := fs[0]
-		var errTerm string
-		if f.c.Kind == "bool" && f.holds {
-			errTerm = regexpFind(`^(`+sendRe+`\(.*\)#1\.\(messages\.KRBError,ok\))#1$`, f.c.L)
-		}
-		if f.c.Kind == "eq" && !f.holds && (f.c.L == "52" || f.c.R == "52") {
-			errTerm = regexpFind(`^(`+sendRe+`\(.*\)#1\.\(messages\.KRBError,ok\))#0\.ErrorCode$`, f.c.L+f.c.R[len(f.c.R):])
-			if errTerm == "" {
-				errTerm = regexpFind(`^(`+sendRe+`\(.*\)#1\.\(messages\.KRBError,ok\))#0\.ErrorCode$`, f.c.R)
+		for _, x := range fa.Exits() {
+			fs := fa.factsOn(x.In)
+			if len(fs) == 0 {
+				continue
 			}
+			f := fs[0]
+			var errTerm string
+			if f.c.Kind == "bool" && f.holds {
+				errTerm = regexpFind(`^(`+sendRe+`\(.*\)#1\.\(messages\.KRBError,ok\))#1$`, f.c.L)
+			}
+			if f.c.Kind == "eq" && !f.holds && (f.c.L == "52" || f.c.R == "52") {
+				errTerm = regexpFind(`^(`+sendRe+`\(.*\)#1\.\(messages\.KRBError,ok\))#0\.ErrorCode$`, f.c.L+f.c.R[len(f.c.R):])
+				if errTerm == "" {
+					errTerm = regexpFind(`^(`+sendRe+`\(.*\)#1\.\(messages\.KRBError,ok\))#0\.ErrorCode$`, f.c.R)
+				}
+			}
+			if errTerm == "" {
+				continue
+			}
+			arms++
+			es := fa.R.R(RetResults(x.Ret)[1])
+			c.Decide(es == errTerm+"#0", "C12.krberror", fk, "arm:"+fa.exitLabel(x), w.Pos(InstrPos(x.Ret)), "the KRBError asserted from the transport's error is returned as the error", "returns "+trunc(es, 160))
 		}
-		if errTerm == "" {
-			continue
-		}
-		arms++
-		es := fa.R.R(RetResults(x.Ret)[1])
-		c.Decide(es == errTerm+"#0", "C12.krberror", fk, "arm:"+fa.exitLabel(x), w.Pos(InstrPos(x.Ret)), "the KRBError asserted from the transport's error is returned as the error", "returns "+trunc(es, 160))
 	}
 	if arms == 0 {
 		c.Fail("C12.krberror", fk, "arms", where, "sendToKDC has KRB-ERROR branches", "none found")
@@ -324,35 +389,42 @@ func runC12(w *World, c *Check) {
 	// each KRBError assertion is applied to the error whose failure it handles: the operand is the
 	// value of the nearest dominating `err != nil` test (identity: the UDP and TCP errors are
 	// different values that a rendering by type cannot tell apart)
-	for _, b := range fn.Blocks {
-		for _, in := range b.Instrs {
-			ta, ok := in.(*ssa.TypeAssert)
-			if !ok || !ta.CommaOk || !strings.HasSuffix(ta.AssertedType.String(), "messages.KRBError") {
-				continue
-			}
-			var nearest ssa.Value
-			for _, dc := range domConds(b) {
-				bo, isB := dc.cond.(*ssa.BinOp)
-				if !isB || (bo.Op != token.NEQ && bo.Op != token.EQL) || (bo.Op == token.NEQ) != dc.holds {
+	for _, fa := range subjects {
+		fn := fa.Fn
+		fk := fk
+		if fa != root {
+			fk = fk + "→" + FuncKey(fn)
+		}
+		for _, b := range fn.Blocks {
+			for _, in := range b.Instrs {
+				ta, ok := in.(*ssa.TypeAssert)
+				if !ok || !ta.CommaOk || !strings.HasSuffix(ta.AssertedType.String(), "messages.KRBError") {
 					continue
 				}
-				for _, pair := range [][2]ssa.Value{{bo.X, bo.Y}, {bo.Y, bo.X}} {
-					if cn, isC := pair[1].(*ssa.Const); isC && cn.Value == nil && types.Identical(pair[0].Type(), ta.X.Type()) {
-						nearest = pair[0]
+				var nearest ssa.Value
+				for _, dc := range domConds(b) {
+					bo, isB := dc.cond.(*ssa.BinOp)
+					if !isB || (bo.Op != token.NEQ && bo.Op != token.EQL) || (bo.Op == token.NEQ) != dc.holds {
+						continue
+					}
+					for _, pair := range [][2]ssa.Value{{bo.X, bo.Y}, {bo.Y, bo.X}} {
+						if cn, isC := pair[1].(*ssa.Const); isC && cn.Value == nil && types.Identical(pair[0].Type(), ta.X.Type()) {
+							nearest = pair[0]
+						}
+					}
+					if nearest != nil {
+						break
 					}
 				}
-				if nearest != nil {
-					break
-				}
+				c.Decide(nearest != nil && nearest == ta.X, "C12.krberror", fk, "assert-own-error:"+fa.R.R(ta.X), w.Pos(InstrPos(ta)),
+					"the error inspected for a KRB-ERROR is the one whose failure this branch handles (the nearest dominating err != nil test)",
+					"asserts "+trunc(fa.R.R(ta.X), 100)+" under the failure test of "+func() string {
+						if nearest == nil {
+							return "no error"
+						}
+						return trunc(fa.R.R(nearest), 100)
+					}())
 			}
-			c.Decide(nearest != nil && nearest == ta.X, "C12.krberror", fk, "assert-own-error:"+fa.R.R(ta.X), w.Pos(InstrPos(ta)),
-				"the error inspected for a KRB-ERROR is the one whose failure this branch handles (the nearest dominating err != nil test)",
-				"asserts "+trunc(fa.R.R(ta.X), 100)+" under the failure test of "+func() string {
-					if nearest == nil {
-						return "no error"
-					}
-					return trunc(fa.R.R(nearest), 100)
-				}())
 		}
 	}
 
